@@ -4,14 +4,15 @@ import vf
 import symgen
 import pegspec
 import evplan
+from props import C05_perr
 
 LEVEL_TEXT = ('bounded symbolic equivalence: rules of the must/raise/try_catch families, nested inside predicates, repetitions and choices and compiled from '
               'the real headers, are run over symbolic sub-rules that may fail after consuming, raise a global failure or throw a foreign exception; CBMC '
               'compares exception identity (first blamed rule in evaluation order), position range, byte/line/column consistency, unchanged propagation of '
               'both exception types and exact conversion by the try_catch family (with cursor restore) against the reference semantics. '
-              'parse_error construction / what() formatting (std::string, ostringstream) is outside the encodable code and not claimed.')
-ASSUMPTIONS = ['Control::raise is the documented customisation point and throws a POD carrying rule identity and byte/line/column; '
-               'normal<Rule>::raise -> parse_error(std::string) formatting, demangle and what() are not encoded']
+              'Second part (props/C05_perr.py): ' + C05_perr.LEVEL_TEXT)
+ASSUMPTIONS = ['first part (rules over symbolic sub-rules): Control::raise is the documented customisation point and throws a POD carrying rule identity and '
+               'byte/line/column; the real normal<Rule>::raise / raise_nested, parse_error and what() are the subject of the second part'] + C05_perr.ASSUMPTIONS
 
 S0, S1, S2 = 'sym<0>', 'sym<1>', 'sym<2>'
 CASES = [
@@ -79,4 +80,6 @@ def plan(ctx):
                        note='exception position of a must<> inside the re-match rule of rematch<> on a lazy input'))
     # must_if<> controls: a rule whose control raises on local failure turns that failure into a global one, blaming that rule
     qs += evplan.queries(ctx, 'c05', PROTO, ['mustif', 'mustif_bool'], N if ctx.quick() else 4, modes=('ar', 'ao', 'nr'))
+    # the real normal< Rule >::raise / raise_nested, parse_error construction, what(), nested exceptions (props/C05_perr.py)
+    qs += C05_perr.plan(ctx)
     return qs
